@@ -404,6 +404,9 @@ class _Gen:
                         conf[p] = sig(abs(a["ii"]) * r.uniform(0.05, 1.3))
                     else:
                         conf[p] = sig(abs(a["rs"]) * r.uniform(0.8, 10.0))
+                # a phase explicitly configured to 0 (load off in that phase) is NOT the same as an absent phase
+                if k in ("PLoad", "ILoad") and conf and r.random() < 0.3:
+                    conf[r.choice(sorted(conf))] = r.choice([0.0, 0])
                 n["phase"] = conf
             elif k in ("Source", "Converter", "LinReg", "PSwitch", "PMux"):
                 if k == "Source" and r.random() < 0.5:
